@@ -111,6 +111,9 @@ pub struct Scene {
     pub env: Vec<EnvSpec>,
     pub safety: SafetySpec,
     pub limits: Option<crate::gen::LimitSpec>,
+    /// slim bodies: link boxes cover only the middle 40 % of each link (fewer permanent self-collisions)
+    #[serde(default)]
+    pub slim: bool,
 }
 
 pub struct Built {
@@ -124,14 +127,15 @@ pub struct Built {
 }
 
 /// Box of link i in its own frame: spans 70 % of the way to the next joint, thickened by r.
-pub fn link_box(r: &RobotSpec, i: usize, thick: f32, fan: u8) -> MeshSpec {
+pub fn link_box(r: &RobotSpec, i: usize, thick: f32, fan: u8, slim: bool) -> MeshSpec {
+    let (c_lo, c_hi) = if slim { (0.3, 0.7) } else { (0.15, 0.85) };
     let next: [V3; 6] = [[r.a1, r.b, 0.0], [0.0, 0.0, r.c2], [r.a2, 0.0, 0.0], [0.0, 0.0, r.c3], [0.0, 0.0, r.c4], [0.0, 0.0, 0.0]];
     let o = next[i];
     let mut lo = [0f32; 3];
     let mut hi = [0f32; 3];
     for k in 0..3 {
-        let a = (o[k] * 0.15) as f32;
-        let b = (o[k] * 0.85) as f32;
+        let a = (o[k] * c_lo) as f32;
+        let b = (o[k] * c_hi) as f32;
         lo[k] = a.min(b) - thick;
         hi[k] = a.max(b) + thick;
     }
@@ -153,7 +157,7 @@ impl Scene {
     /// attached environment boxes are placed.
     pub fn build(&self, j_ref: &[f64; 6]) -> Built {
         let r = &self.robot;
-        let link_mesh: [MeshSpec; 6] = std::array::from_fn(|i| link_box(r, i, self.link_r[i], self.link_fan[i]));
+        let link_mesh: [MeshSpec; 6] = std::array::from_fn(|i| link_box(r, i, self.link_r[i], self.link_fan[i], self.slim));
         let tool_mesh = self.tool.map(|(len, w, fan)| MeshSpec { lo: [-w, -w, 0.0], hi: [w, w, len], fan: fan % 2 });
         let base_iso = self.base_iso();
         let base_mesh = self.base.as_ref().map(|(_, hxy, h, fan)| (MeshSpec { lo: [-hxy[0], -hxy[1], -*h], hi: [hxy[0], hxy[1], 0.0], fan: fan % 2 }, base_iso));
@@ -409,7 +413,7 @@ pub fn scene_strategy(max_env: usize) -> BoxedStrategy<Scene> {
         .prop_flat_map(|(robot, link_r, link_fan, tool, base, env)| {
             let n_env = env.len();
             let (wt, wb) = (tool.is_some(), base.is_some());
-            safety_strategy(n_env, wt, wb).prop_map(move |safety| Scene { robot, link_r, link_fan, tool, base: base.clone(), env: env.clone(), safety, limits: None })
+            safety_strategy(n_env, wt, wb).prop_map(move |safety| Scene { robot, link_r, link_fan, tool, base: base.clone(), env: env.clone(), safety, limits: None, slim: false })
         })
         .boxed()
 }
